@@ -97,7 +97,7 @@ CHECKS["C12"] = {
                   "Load order: every permutation of the template lines x every permutation of the message lines is "
                   "loaded in its own process and must give identical dumps, lookups, decodes and encodes",
     "level_note": "hidden state outside the fingerprint would only hide behaviour (checked by the stateless pass), it cannot "
-                  "create an alarm; operations are 54 (thorough 60) representatives of the type families, not every "
+                  "create an alarm; operations are 56 (thorough 62) representatives of the type families, not every "
                   "type; load order uses 3x4 (thorough 4x6) mutually independent lines (distinct names and IDs, no "
                   "defaults, no conditions)",
     "technique": "explicit-state BFS over operation histories of the real codec with canonical state hashing to a fixpoint, plus exhaustive permutation of definition lines",
@@ -116,8 +116,8 @@ CHECKS["C12"] = {
     "runs": [{
         "harness": "c12_history", "sources": ["engines/codec/c12_history.cpp"], "variant": "plain", "libset": "core",
         "quick": {"parts": 16, "deadline": 100,
-                  "bounds": "54 operations to fixpoint; stateless length<=2; 3! x 4! load orders"},
+                  "bounds": "56 operations to fixpoint; stateless length<=2; 3! x 4! load orders"},
         "thorough": {"parts": 16, "deadline": 800,
-                     "bounds": "60 operations to fixpoint; stateless length<=3; 4! x 6! load orders"},
+                     "bounds": "62 operations to fixpoint; stateless length<=3; 4! x 6! load orders"},
     }],
 }
